@@ -1,0 +1,117 @@
+//go:build verif
+
+package cli
+
+import (
+	"bytes"
+	"errors"
+	"io"
+
+	"github.com/itchyny/go-yaml"
+	"github.com/mattn/go-runewidth"
+)
+
+// Hooks for the C17 check of /verif (reported error positions). They only call
+// unexported functions of this package; nothing in the package's behaviour
+// depends on this file.
+
+// VerifC17LineInfo is getLineByOffset.
+func VerifC17LineInfo(contents string, offset int) (linestr string, line, column int) {
+	return getLineByOffset(contents, offset)
+}
+
+// VerifC17FormatLineInfo is formatLineInfo.
+func VerifC17FormatLineInfo(linestr string, line, column int) string {
+	return formatLineInfo(linestr, line, column)
+}
+
+// VerifC17TrimLastInvalidRune is trimLastInvalidRune.
+func VerifC17TrimLastInvalidRune(s string) string {
+	return trimLastInvalidRune(s)
+}
+
+// VerifC17StringWidth is the width function getLineByOffset uses for the caret.
+func VerifC17StringWidth(s string) int {
+	return runewidth.StringWidth(s)
+}
+
+// VerifC17SetEastAsian fixes runewidth's locale-dependent switch (it is read
+// from the environment at init time) and returns the previous value.
+func VerifC17SetEastAsian(v bool) bool {
+	old := runewidth.DefaultCondition.EastAsianWidth
+	runewidth.EastAsianWidth = v
+	runewidth.DefaultCondition.EastAsianWidth = v
+	return old
+}
+
+// VerifC17JSONInput runs the command's JSON input iterator (newJSONInputIter,
+// or newStreamInputIter when stream is set) over r exactly as createInputIter
+// does, calls onValue after every value the iterator returned, and returns the
+// number of values and the text of the error the iterator ended with ("" at a
+// clean EOF). Whether the seekable or the buffered path is taken depends on r
+// (io.ReadSeeker or not), as in the command.
+func VerifC17JSONInput(r io.Reader, fname string, stream bool, onValue func(v any)) (n int, errText string) {
+	newIter := newJSONInputIter
+	if stream {
+		newIter = newStreamInputIter
+	}
+	iter := newIter(r, fname)
+	defer iter.Close()
+	for {
+		v, ok := iter.Next()
+		if !ok {
+			return n, ""
+		}
+		if err, ok := v.(error); ok {
+			return n, err.Error()
+		}
+		n++
+		if onValue != nil {
+			onValue(v)
+		}
+	}
+}
+
+// VerifC17Run runs the whole command in-process (flag parsing included).
+func VerifC17Run(args []string, stdin io.Reader) (stdout, stderr string, code int) {
+	var o, e bytes.Buffer
+	args = append([]string(nil), args...) // parseFlags writes into args
+	code = (&cli{inStream: stdin, outStream: &o, errStream: &e}).run(args)
+	return o.String(), e.String(), code
+}
+
+// VerifC17YAMLError runs the command's YAML input iterator over text and, when
+// it ends with a yamlParseError, returns the byte index go-yaml reported (the
+// one yamlParseError.Error converts into a position; found the same way) and
+// the error text. ok is false when the input was accepted.
+func VerifC17YAMLError(r io.Reader, fname string) (index int, errText string, ok bool) {
+	iter := newYAMLInputIter(r, fname)
+	defer iter.Close()
+	for {
+		v, more := iter.Next()
+		if !more {
+			return 0, "", false
+		}
+		ype, isErr := v.(*yamlParseError)
+		if !isErr {
+			if err, isErr := v.(error); isErr {
+				return -1, err.Error(), true
+			}
+			continue
+		}
+		var pe *yaml.ParserError
+		var te *yaml.TypeError
+		if errors.As(ype.err, &pe) {
+			index = pe.Index
+		} else if errors.As(ype.err, &te) {
+			var ue *yaml.UnmarshalError
+			for _, e := range te.Errors {
+				if errors.As(e, &ue) {
+					index = ue.Index
+					break
+				}
+			}
+		}
+		return index, ype.Error(), true
+	}
+}
